@@ -97,6 +97,14 @@ add("C02", "other",
     "loops within one statement) compared inside Coq with Sem and the VM model, including interleaved output and the loop "
     "variables after the loop.", COMMON_NOTE + " Axiom used by the for-loop equation: functional_extensionality_dep (standard library).", DIFF)
 
+add("C19", "other",
+    "Partial. Proved in Coq (PropC19.v) about the VM model's report function: the report names the error class that is returned and "
+    "class names are distinct. Not proved: that the marked instruction and the listed frames are the failing one and the active "
+    "calls. Decided each run with failing programs whose failing operator, operand values and call chain are known by "
+    "construction (23 failure forms x depth 0-6 x plain/alias/loop/generator/nested generator): the real report is parsed and "
+    "compared with the construction; and the full report text is compared byte for byte with the VM model.", COMMON_NOTE,
+    "constructed-oracle testing of the Go report + byte-level correspondence with the Coq VM model")
+
 PENDING_REASON = "check under construction in this round (the technique applies; see DESIGN.md section 6); not yet claimed"
 
 
